@@ -10,14 +10,14 @@ def fams(tier):
 
 
 def run(tier, seed):
-    extra = []
-    try:
-        import props.C09x as x
-        extra = x.EXTRA
-    except ImportError:
-        pass
+    import cachefam
+    extra = [cachefam.c09_runs]
     return run_proxy_property("C09", tier, seed, fams, 40, 400, RULE, ASSUME, extra_runs=extra, level="fault_enumeration")
 
 
 def replay(path):
+    import json
+    if json.load(open(path)).get("kind") == "cachedrv":
+        from props.cachecommon import replay_file as cache_replay
+        return cache_replay("C14", path)
     return replay_file("C09", path)
